@@ -54,8 +54,64 @@ fn ext_s() -> impl Strategy<Value = ExtSpec> {
     ]
 }
 
+/// An entry under one of the typed keys, from that key's own value set: half castable to the type the
+/// key is pulled as, half not (see model::cast_text).
+fn typed_entry_s() -> impl Strategy<Value = (u8, Val)> {
+    let lvl = prop_oneof![
+        3 => (5u8..=8).prop_map(Val::S),          // "error" "warn" "info" "debug"
+        2 => (0u8..4).prop_map(Val::L),           // real emit::Level values
+        2 => Just(Val::S(9)),                     // "trace": not a level
+        1 => Just(Val::I(7)),
+        1 => Just(Val::B(true)),
+    ];
+    let kind = prop_oneof![
+        2 => (10u8..=11).prop_map(Val::S),        // "span" "metric"
+        2 => (0u8..2).prop_map(Val::K),           // real emit::Kind values
+        3 => Just(Val::S(12)),                    // "spam": not a kind
+        1 => Just(Val::I(0)),
+    ];
+    let n = prop_oneof![
+        1 => (-1i64..=7).prop_map(Val::I),
+        1 => prop_oneof![Just(Val::S(9)), Just(Val::S(12))],
+    ];
+    let flag = prop_oneof![
+        1 => any::<bool>().prop_map(Val::B),
+        1 => prop_oneof![Just(Val::S(9)), Just(Val::S(12))],
+    ];
+    prop_oneof![
+        5 => lvl.prop_map(|v| (KEY_LVL, v)),
+        3 => kind.prop_map(|v| (KEY_KIND, v)),
+        1 => n.prop_map(|v| (KEY_N, v)),
+        1 => flag.prop_map(|v| (KEY_FLAG, v)),
+    ]
+}
+
+/// General props with 0–2 typed entries spliced in at generated positions.
 fn props_s(max: usize) -> impl Strategy<Value = Vec<(u8, Val)>> {
-    prop::collection::vec((key_s(), val_s()), 0..=max)
+    (
+        prop::collection::vec((key_s(), val_s()), 0..=max),
+        prop_oneof![
+            3 => Just(0usize),
+            5 => Just(1usize),
+            2 => Just(2usize),
+        ]
+        .prop_flat_map(|n| prop::collection::vec((typed_entry_s(), any::<u32>()), n..=n)),
+    )
+        .prop_map(|(mut general, typed)| {
+            for (entry, at) in typed {
+                let i = vcore::pick(at, general.len() + 1);
+                general.insert(i, entry);
+            }
+            general
+        })
+}
+
+fn typed_pred_s() -> impl Strategy<Value = Pred> {
+    prop_oneof![
+        4 => (0u8..4, prop::option::weighted(0.4, 0u8..4)).prop_map(|(min, default)| Pred::MinLevel { min, default }),
+        3 => (0u8..2).prop_map(Pred::KindIs),
+        3 => prop_oneof![3 => Just(0u8), 2 => Just(1u8), 1 => Just(2u8), 1 => Just(3u8)].prop_map(Pred::PullSome),
+    ]
 }
 
 fn pred_s() -> impl Strategy<Value = Pred> {
@@ -67,6 +123,7 @@ fn pred_s() -> impl Strategy<Value = Pred> {
         4 => (key_s(), val_s()).prop_map(|(k, v)| Pred::FirstValIs(k, v)),
         2 => prop_oneof![Just(ExtShape::None), Just(ExtShape::Point), Just(ExtShape::Range)].prop_map(Pred::ExtentIs),
         2 => ts_s().prop_map(Pred::TsBefore),
+        6 => typed_pred_s(),
     ]
 }
 
@@ -78,6 +135,8 @@ fn fs_s(depth: u32, size: u32) -> impl Strategy<Value = FS> {
         1 => Just(FS::Empty),
         1 => Just(FS::Always),
         1 => Just(FS::Opt(None)),
+        1 => (0u8..4, prop::option::weighted(0.4, 0u8..4)).prop_map(|(min, default)| FS::MinLevel { min, default }),
+        1 => (0u8..2).prop_map(FS::KindIs),
     ];
     leaf.prop_recursive(depth, size, 2, |inner| {
         let b = |s: BoxedStrategy<FS>| s.prop_map(Box::new);
@@ -161,7 +220,101 @@ fn entry_s() -> impl Strategy<Value = Entry> {
     ]
 }
 
+/// The shadowing scenario, spliced into a case on purpose (the independent draws above reach it too,
+/// just less often): the event's OWN value for a typed key does not cast, an AMBIENT value for the same
+/// key does, and (usually) a typed-lookup leaf on that key sits where it is handed the props generically
+/// (an operand of the root And/Or of the effective filter, or the filter of a root Wrap of the destination).
+#[derive(Debug, Clone)]
+struct Shadow {
+    slot: u8,
+    own: u8,
+    amb: u8,
+    pred: Pred,
+    /// 0 = leave the trees alone, 1 = leaf && filter, 2 = filter || leaf, 3 = dest.wrap(from_filter(leaf))
+    place: u8,
+    raw_node: bool,
+}
+
+fn shadow_s() -> impl Strategy<Value = Shadow> {
+    (
+        prop_oneof![5 => Just(0u8), 3 => Just(1u8), 1 => Just(2u8), 1 => Just(3u8)],
+        0u8..4,
+        0u8..8,
+        typed_pred_s(),
+        prop_oneof![1 => Just(0u8), 3 => Just(1u8), 3 => Just(2u8), 2 => Just(3u8)],
+        any::<bool>(),
+    )
+        .prop_map(|(slot, own, amb, pred, place, raw_node)| {
+            // make the leaf look at the scenario's slot
+            let pred = match (slot, pred) {
+                (0, p @ Pred::MinLevel { .. }) => p,
+                (1, p @ Pred::KindIs(_)) => p,
+                (0, _) => Pred::MinLevel { min: 2, default: None },
+                (1, _) => Pred::KindIs(own % 2),
+                (s, _) => Pred::PullSome(s),
+            };
+            Shadow { slot, own, amb, pred, place, raw_node }
+        })
+}
+
+fn apply_shadow(c: &mut Case, sh: &Shadow) {
+    let (k, own, amb) = match sh.slot % 4 {
+        0 => (
+            KEY_LVL,
+            [Val::S(9), Val::I(7), Val::B(true), Val::S(12)][sh.own as usize % 4].clone(),
+            [Val::S(5), Val::S(6), Val::S(7), Val::S(8), Val::L(3), Val::L(2), Val::L(0), Val::L(1)][sh.amb as usize % 8].clone(),
+        ),
+        1 => (
+            KEY_KIND,
+            [Val::S(12), Val::I(0), Val::S(9), Val::B(false)][sh.own as usize % 4].clone(),
+            [Val::S(10), Val::S(11), Val::K(0), Val::K(1)][sh.amb as usize % 4].clone(),
+        ),
+        2 => (KEY_N, [Val::S(9), Val::S(12)][sh.own as usize % 2].clone(), Val::I(sh.amb as i64)),
+        _ => (KEY_FLAG, [Val::S(9), Val::S(12)][sh.own as usize % 2].clone(), Val::B(sh.amb % 2 == 0)),
+    };
+    // first occurrences on both sides
+    c.evt.props.insert(0, (k, own));
+    c.ambient.insert(0, (k, amb));
+    if c.ctxt == CtxtKind::Empty {
+        c.ctxt = CtxtKind::List;
+    }
+    let leaf = |pred: Pred| match (&pred, sh.raw_node) {
+        (Pred::MinLevel { min, default }, true) => FS::MinLevel { min: *min, default: *default },
+        (Pred::KindIs(k), true) => FS::KindIs(*k),
+        _ => FS::Leaf { id: 0, pred },
+    };
+    let effective: &mut FS = if c.entry.is_macro() && c.when.is_some() {
+        c.when.as_mut().unwrap()
+    } else {
+        &mut c.filter
+    };
+    match sh.place {
+        1 => {
+            let old = std::mem::replace(effective, FS::Empty);
+            *effective = FS::And(Box::new(leaf(sh.pred.clone())), Box::new(old));
+        }
+        2 => {
+            let old = std::mem::replace(effective, FS::Empty);
+            *effective = FS::Or(Box::new(old), Box::new(leaf(sh.pred.clone())));
+        }
+        3 => {
+            let old = std::mem::replace(&mut c.dest, ES::Empty);
+            c.dest = ES::Wrap(Box::new(old), WS::Filter(leaf(sh.pred.clone())));
+        }
+        _ => {}
+    }
+}
+
 fn case_s() -> impl Strategy<Value = Case> {
+    (base_case_s(), prop::option::weighted(0.3, shadow_s())).prop_map(|(mut c, sh)| {
+        if let Some(sh) = sh {
+            apply_shadow(&mut c, &sh);
+        }
+        c
+    })
+}
+
+fn base_case_s() -> impl Strategy<Value = Case> {
     (
         (ev_s(), props_s(6), prop_oneof![1 => Just(CtxtKind::Empty), 4 => Just(CtxtKind::List), 3 => Just(CtxtKind::ThreadLocal)]),
         prop::option::weighted(0.6, ts_s()),
@@ -234,6 +387,11 @@ fn main() {
         s.require("nested-runtime", n * 3 / 1000);
         s.require("call-site-filter", n * 3 / 1000);
         s.require("ctxt:thread-local", n * 3 / 1000);
+        // typed-lookup filters (round 6): floors at 1 % of `trees` (measured 18–29 %)
+        s.require("typed-filter:min-level", n / 100);
+        s.require("typed-filter:kind", n / 100);
+        s.require("typed-filter:own-value-does-not-cast/ambient-does", n / 100);
+        s.require("typed-filter:own-value-does-not-cast/ambient-does/leaf-sees-props-generically", n / 100);
         s.gen("trees", n, case_s, run::check);
         s.gen("static-shapes", s.n(60_000, 600_000), static_case_s, statics::check_static);
     })
